@@ -29,9 +29,23 @@ def i32(extra=()):
     return edge_int(I32_MIN, I32_MAX, extra=(-1, 1, -128, 127, 128, 255, 256, -32768, 32767, 65535) + tuple(extra))
 
 
+# strings that mean something to code that (mis)uses a text as a template, a path, a number or a pattern
+TRICKY_TEXTS = ["{}", "Amp {L}", "{0}", "%s", "100%", "%(name)s", "a\\b", "'quoted'", '"dq"', "a/b", "..", " lead", "trail ", "\t", "1", "0", "-1", "None", "e\u0301", "\u00e9", "A\u030a", "\ufb01", "\u200b", "\U0001f3b5", "a\nb"]
+
+
 def text_no_nul(max_size=80):
     alphabet = st.characters(blacklist_characters="\x00", blacklist_categories=("Cs",))
-    return st.text(alphabet, max_size=max_size)
+    tricky = [t for t in TRICKY_TEXTS if len(t) <= max_size]
+    return st.one_of(st.text(alphabet, max_size=max_size), st.text(alphabet, max_size=max_size), st.text(alphabet, max_size=max_size), st.sampled_from(tricky) if tricky else st.just(""))
+
+
+def long_text(min_bytes=200, max_chars=400):
+    """Text well beyond every 8-bit length (labels, names of things that are stored without a fixed width)."""
+    alphabet = st.characters(blacklist_characters="\x00", blacklist_categories=("Cs",), max_codepoint=0x2FFF)
+    return st.one_of(
+        st.sampled_from(["x" * 255, "x" * 256, "x" * 300, "\u00e9" * 127 + "z", "\u00e9" * 128, "\u4e2d" * 85, "\u4e2d" * 86, "ab" * 700]),
+        st.text(alphabet, min_size=min_bytes, max_size=max_chars),
+    )
 
 
 @st.composite
